@@ -66,6 +66,9 @@ def gen_plan(rng, index, tier):
             lvl, idx, prm = rng.choice(["core", "assembly", "block", "component"]), rng.randrange(1000), rng.choice(["vP0", "vP1", "vP2"])
             ent = {"op": "enter", "level": lvl, "idx": idx, "keep": sorted({prm} | set(rng.sample(KEEP_CANDIDATES, rng.choice([0, 1]))))}
             steps += [dict(ent), dict(ent), {"op": "setp", "level": lvl, "idx": idx, "param": prm, "vkind": rng.choice(["arr", "arr", "arrn", "float", "dict"]), "u": uid}, {"op": "exit"}, {"op": "exit"}]
+        elif r < 0.215 and r >= 0.205:
+            # a linked dimension gets a number of its own (the link is gone until the scope ends)
+            steps.append({"op": "unlink", "idx": rng.randrange(1000), "factor": rng.choice([0.995, 1.0])})
         elif r < 0.205:
             # a dimension assigned directly (no setter, nothing invalidated) and the block's area looked at
             steps.append({"op": "dimcache", "idx": rng.randrange(1000), "factor": rng.choice([0.97, 0.99, 1.02])})
@@ -311,6 +314,18 @@ class Runner:
             b = blks[st["idx"] % len(blks)]
             b.setHeight(b.getHeight() * st["factor"])
             self.edits += 1
+        elif op == "unlink" and not self.readonly:
+            cands = []
+            for c in c06.objects_at_level(r, "component"):
+                for dn in c.DIMENSION_NAMES:
+                    v = c.p[dn]
+                    if isinstance(v, tuple) and len(v) == 2 and dn in ("id", "ip"):
+                        cands.append((c, dn))
+            if cands:
+                c, dn = cands[st["idx"] % len(cands)]
+                c.setDimension(dn, float(c.getDimension(dn, cold=True)) * st["factor"], cold=True)
+                self.edits += 1
+                self.probe("linked_dimension_given_a_number")
         elif op == "dimcache" and not self.readonly:
             from armi.reactor.components import basicShapes
 
